@@ -348,3 +348,8 @@ def run_physical_unit(ctx):
     else:
         ctx.check("only-the-engine's-NodeError-propagates", bool(isinstance(val, errors.NodeError)), props=["C06"])
     return kind
+
+
+from .sysprobe import replay_for as _replay_for  # noqa: E402
+
+REPLAYS = [("runphys.*", _replay_for(['C02', 'C06', 'C15', 'C01'], 1500))]
